@@ -121,6 +121,7 @@ class Unit:
         self.extraction = []      # strings: what extraction dropped / outlined / rewrote
         self.items = []
         self.assumption_anchors = []
+        self.missing_outlines = []
         self.canaries = []        # region indexes that are canaries (canary mode only)
         self.serves = []
 
@@ -467,6 +468,13 @@ class Generator:
             for kind, label, abuf, wbuf in f.outlines:
                 atext = "\n".join(abuf)
                 hits = sf.find_token_seq(atext, hit["start"], bc + 1)
+                if len(hits) == 0:
+                    # lenient: leave the real text as it is.  Either Verus rejects the construct
+                    # (exit 2, unsupported) or the remaining obligations decide (e.g. the statement
+                    # was deleted and a postcondition now fails).
+                    u.extraction.append("fn %s: %s [%s]: anchor text NOT FOUND in the current tree; real text left in place" % (fid, kind, label))
+                    u.missing_outlines.append("%s/%s" % (fid, label))
+                    continue
                 if len(hits) != 1:
                     raise LostAnchor("fn %s: %s '%s' anchor text found %d times: %s" % (
                         fid, kind, label, len(hits), norm(atext)[:120]))
@@ -525,6 +533,8 @@ class Generator:
             return toks[bo].end
         if anchor == "fn:end":
             return toks[bc].start
+        if anchor == "fn:tail":
+            return self._tail_pos(sf, bo, bc)
         m = re.match(r"^loop:(\d+):(before|body_start|body_end|after)$", anchor)
         if m:
             n = int(m.group(1))
@@ -591,6 +601,41 @@ class Generator:
                 j += 1
             raise LostAnchor("fn %s: statement end of call %s#%d not found" % (fid, name, kth))
         raise TemplateError("fn %s: unknown anchor %s" % (fid, anchor))
+
+    @staticmethod
+    def _tail_pos(sf, bo, bc):
+        """offset just before the tail expression of the block bo..bc (before the closing
+        brace when the block has no tail expression).  Statement boundaries at block depth:
+        `;`, and the closing brace of a block-like expression statement (if / match / for /
+        while / loop / unsafe / bare block / proof) unless followed by `else`."""
+        toks = sf.toks
+        BLOCKLIKE = ("if", "match", "for", "while", "loop", "unsafe", "proof")
+        last = bo + 1            # token index where the current statement starts
+        j = bo + 1
+        stmt_start = bo + 1
+        while j < bc:
+            t = toks[j]
+            if t.kind == "punct" and t.text in ("(", "["):
+                j = sf.match[j] + 1
+                continue
+            if t.kind == "punct" and t.text == "{":
+                c = sf.match[j]
+                first = toks[stmt_start]
+                k = stmt_start
+                # skip a loop label
+                if first.kind == "lifetime" and toks[k + 1].text == ":":
+                    first = toks[k + 2]
+                blocklike = (first.kind == "ident" and first.text in BLOCKLIKE) or (first.kind == "punct" and first.text == "{")
+                j = c + 1
+                if blocklike and not (j < bc and toks[j].kind == "ident" and toks[j].text == "else"):
+                    stmt_start = j
+                continue
+            if t.kind == "punct" and t.text == ";":
+                stmt_start = j + 1
+            j += 1
+        if stmt_start >= bc:
+            return toks[bc].start
+        return toks[stmt_start].start
 
     @staticmethod
     def _paren_free(sf, enc, j):
